@@ -227,6 +227,9 @@ func (nb *nativeBuilder) run(entry string, params map[string]int, inputs []Input
 			traces = append(traces, strings.TrimPrefix(l, "TRACE "))
 		}
 	}
+	if len(fails) == 0 && strings.Contains(raw, "fatal error: stack overflow") {
+		fails = append(fails, "process-crash@stack-overflow")
+	}
 	if len(fails) == 0 && strings.Contains("\n"+raw, "\npanic: ") && strings.Contains(raw, "goroutine ") {
 		// the process died: report the first frame inside the repository
 		lines := strings.Split(raw, "\n")
@@ -441,6 +444,11 @@ func cmdCheck(args []string) {
 			cfg.MaxPaths = *maxPathsFlag
 		}
 		cfg.SampleModels = 3
+		cfg.AfterViolation = 300
+		cfg.TimeBudget = 15 * time.Minute
+		if *tier == "thorough" {
+			cfg.TimeBudget = 60 * time.Minute
+		}
 		if *tier == "thorough" {
 			cfg.SampleModels = 8
 			cfg.SolverTimeoutMS = 120000
@@ -473,6 +481,11 @@ func cmdCheck(args []string) {
 		reports = append(reports, rep)
 		fmt.Printf("[%s %s] paths=%d %v forks=%d asserts(solver=%d,concrete=%d) queries=%d unknown=%d wall=%.1fs\n", id, e.Fn, sum.Paths, sum.ByStatus, sum.Forks, sum.AssertsSym, sum.AssertsConc, sum.Queries, sum.QUnknown, sum.Wall.Seconds())
 
+		if sum.Truncated != "" && e.ExpectViolation == "" {
+			msg := e.Fn + ": " + sum.Truncated
+			fmt.Println("INCONCLUSIVE:", msg)
+			evidenceInconclusive = append(evidenceInconclusive, msg)
+		}
 		// reachability twin
 		if e.ExpectViolation != "" {
 			hit := false
@@ -742,6 +755,9 @@ func labelsMatch(a, b string) bool {
 	}
 	// a native crash of the whole process (panic in a goroutine the harness does
 	// not own, e.g. Raft's FSM runner) is matched on the panic site alone
+	if (a == "process-crash@stack-overflow" && strings.HasSuffix(b, ":no-termination")) || (b == "process-crash@stack-overflow" && strings.HasSuffix(a, ":no-termination")) {
+		return true
+	}
 	if strings.HasPrefix(a, "process-crash@") || strings.HasPrefix(b, "process-crash@") {
 		ja, jb := strings.Index(a, "@"), strings.Index(b, "@")
 		if ja < 0 || jb < 0 {
